@@ -31,6 +31,10 @@ for i, c in enumerate(CRATES3):
         _c14.append(H(f"c14::{c}::c14_net_{s}", t if s != "10" else "quick",
                       f"SubnetFilter: {s[0]} Ipv4Network::new(any addr, 0..=32) + {s[1]} Ipv6Network::new(any addr, 0..=128), side flags, endpoints symbolic",
                       "matches() == CIDR oracle; config(subnet only) == rule"))
+    for s in ["3300", "0033", "2222"]:
+        _c14.append(H(f"c14::{c}::c14_port_{s}", "thorough",
+                      f"PortFilter via builder: {s[0]} src ports, {s[1]} dst ports, {s[2]} src Range<u16>, {s[3]} dst Range<u16>; all values, any_port, both endpoint ports symbolic",
+                      "matches() == oracle; FilterConfig(port only).should_process == rule, both modes"))
     for k, what in (("ip", "IpFilter"), ("net", "SubnetFilter")):
         _c14.append(H(f"c14::{c}::c14_{k}mix_11", "quick" if c == "tcp" else "thorough",
                       f"{what}: 1 IPv4 + 1 IPv6 element, side flags, endpoints of every family combination (v4/v4, v4/v6, v6/v4, v6/v6) symbolic",
@@ -53,7 +57,7 @@ PROPERTIES["C14"] = {
                   "IpFilter::{new,source_only,destination_only,matches}", "SubnetFilter::{new,source_only,destination_only,matches}",
                   "FilterConfig::{new,mode,with_port_filter,with_ip_filter,with_subnet_filter,should_process}",
                   "ipnetwork::Ipv4Network::{new,contains}", "ipnetwork::Ipv6Network::{new,contains}"],
-    "bounds": "lists of <= 2 ports, <= 2 ranges per side, <= 2 IPv4 + 1 IPv6 addresses, <= 2 IPv4 + 1 IPv6 networks; unwind 20",
+    "bounds": "lists of <= 2 ports, <= 2 ranges per side (thorough: <= 3 ports or <= 3 ranges per side, 2+2+2+2 combined), <= 2 IPv4 + 1 IPv6 addresses, <= 2 IPv4 + 1 IPv6 networks; unwind 20",
     "outside": "longer lists; the string builders IpFilter::allow/SubnetFilter::allow (str::parse); mixed-family endpoint pairs with more than 1+1 list elements",
     "assumptions": ["E1 tracing stub (no subscriber)", "prefix lengths assumed within 0..=32 / 0..=128 (Ipv*Network::new rejects others)"],
 }
